@@ -66,7 +66,11 @@ def run_one(path, repo, tier):
                 if pr.returncode == 0:
                     res.append((prop, "QUIET", ""))
                 else:
-                    res.append((prop, "FALSE-ALARM" if pr.returncode == 1 else "ERROR", out[-800:]))
+                    if pr.returncode == 1 and prop in m.get("alarms_by_design", []):
+                        # a documented encoding limit (DESIGN.md section 10): the alarm is expected and is not counted as quiet
+                        res.append((prop, "ALARMS-BY-DESIGN", [l for l in out.splitlines() if l.strip().startswith("rule ")][:2]))
+                    else:
+                        res.append((prop, "FALSE-ALARM" if pr.returncode == 1 else "ERROR", out[-800:]))
         return (m["id"], res, m.get("why", ""), props)
     finally:
         shutil.rmtree(d, ignore_errors=True)
